@@ -107,7 +107,7 @@ impl fmt::Display for Error {
             Error::NA => write!(fmt, "#N/A"),
             Error::NUM => write!(fmt, "#NUM!"),
             Error::ERROR => write!(fmt, "#ERROR!"),
-            Error::NIMPL => write!(fmt, "#N/IMPL"),
+            Error::NIMPL => write!(fmt, "#N/IMPL!"),
             Error::SPILL => write!(fmt, "#SPILL!"),
             Error::CALC => write!(fmt, "#CALC!"),
             Error::CIRC => write!(fmt, "#CIRC!"),
